@@ -3,8 +3,10 @@ import fnmatch, json, os, subprocess, sys, time, hashlib, shlex
 from concurrent.futures import ThreadPoolExecutor
 
 VERIF = os.path.dirname(os.path.dirname(os.path.abspath(__file__)))
-EVID = os.path.join(VERIF, "evidence")
-REPLAY = os.path.join(VERIF, "replay")
+_SCRATCH = os.environ.get("VERIF_REPO_ROOT", "/repo") != "/repo"
+# runs against a scratch copy (mutation testing) must not overwrite the evidence of /repo
+EVID = os.path.join(VERIF, "build", "scratch-evidence") if _SCRATCH else os.path.join(VERIF, "evidence")
+REPLAY = os.path.join(VERIF, "build", "scratch-replay") if _SCRATCH else os.path.join(VERIF, "replay")
 FINDINGS = os.path.join(VERIF, "known_findings.json")
 
 
